@@ -183,6 +183,41 @@ def check_pool(ctx, name, make, n, log_frequency, as_generator=False):
     ctx.count("pool_" + name)
 
 
+class FlakyJob(SleepJob):
+    """fails the first time it is run, succeeds afterwards (a worker that died, a transfer that failed)"""
+    def __init__(self, k, delay, fail_first):
+        super().__init__(k, delay)
+        self.fail_first, self.attempts = fail_first, 0
+
+    def run(self):
+        self.attempts += 1
+        if self.fail_first and self.attempts == 1:
+            raise RuntimeError(f"transient failure of job {self.k}")
+        super().run()
+
+
+def check_flaky(ctx, name, make, n, log_frequency, bad):
+    """one job of the batch fails on its first attempt.  The evaluator may let the error reach the caller (what the library does)
+    or recover; whatever it *returns* must be the jobs in job order, each carrying its own result"""
+    jobs = [FlakyJob(k, 0.001 * (n - k), k == bad) for k in range(n)]
+    ev, closer = make()
+    try:
+        kw = {} if log_frequency is None else {"log_frequency": log_frequency}
+        res = call(ev.evaluate_all, jobs, **kw)
+    finally:
+        closer()
+    inp = {"evaluator": name, "jobs": n, "log_frequency": log_frequency, "job_failing_on_first_attempt": bad}
+    ctx.count("flaky_batches")
+    if isinstance(res, str):
+        ctx.count("flaky_batches_error_reached_caller")
+    else:
+        got = [(getattr(j, "k", None), getattr(j, "out", None)) for j in res]
+        exp = [(k, f_task(k)) for k in range(n)]
+        if got != exp:
+            ctx.fail("results-not-in-job-order", inp, got, exp, "evaluator." + name)
+    ctx.case(("flaky", name, n, log_frequency, bad), True)
+
+
 class DummyAlg(C.Algorithm):
     def step(self):
         pass
@@ -420,6 +455,11 @@ def run(ctx, drv):
     for name, mk in makers:
         for n in (0, 1, 2, 5):
             check_pool(ctx, name, mk, n, None, as_generator=True)
+    # a job that fails once, in every position of batches that span several log chunks
+    for name, mk in makers:
+        for n, lf in ((5, None), (5, 2), (7, 3), (4, 1)):
+            for bad in range(n):
+                check_flaky(ctx, name, mk, n, lf, bad)
     check_pool(ctx, "ProcessPoolEvaluator", mk_process, 4, None)
     if not ctx.quick():
         check_pool(ctx, "ProcessPoolEvaluator", mk_process, 7, 2)
